@@ -8,10 +8,15 @@ N = "n=_sync,_sys,usr,u2,$document,$document.revid"
 
 
 def canon(line):
-    """Compare modulo things a different interleaving legitimately changes: callback invocation counts / what retried callbacks saw,
+    """Compare modulo things a different interleaving legitimately changes: callback invocation counts / what retried callbacks saw (but not what the last, stored, invocation saw),
     and the absolute CAS numbers (an aborted attempt also draws a timestamp) - CAS values are replaced by their rank."""
     line = re.sub(r" calls=\d+", "", line)
-    line = re.sub(r" seen=\S*", "", line)
+    # of what the callback was shown, only the LAST version matters: that is the one its stored result was computed from
+    # ("a callback's result is stored only on the version it was shown"); earlier, retried invocations differ legitimately
+    m = re.search(r" seen=(\S*)", line)
+    if m:
+        items = re.split(r",(?=[~=])", m.group(1))
+        line = line[:m.start()] + " lastseen=" + items[-1] + line[m.end():]
     return line
 
 
@@ -160,6 +165,13 @@ SCENARIOS = {
              threads={"A": 'wuwx c0 k exp=0 n=_sync,usr cb=doc:{"a":2} x._sync={"r":2}'},
              script=[{"do": "park", "thread": "A", "point": "wuwx.afterread"}, {"do": "spawn", "thread": "A", "line": 'wuwx c0 k exp=0 n=_sync,usr cb=doc:{"a":2} x._sync={"r":2}'},
                      {"do": "await", "thread": "A", "point": "wuwx.afterread"}, {"do": "run", "line": 'updx c0 k exp=0 cas=2097152 x.usr={"q":9}'},
+                     {"do": "release", "thread": "A"}, {"do": "join", "thread": "A"}],
+             observe=["rb c0 k " + N]),
+        dict(name="writeupdatewithxattrs-of-an-absent-key-vs-creation-of-a-tombstone-with-xattrs",
+             setup=["clock t=2097152", 'set c0 other exp=0 raw=0 v={"o":1}', "clock t=3145728"],
+             threads={"A": 'wuwx c0 k exp=0 n=_sync,usr cb=doc:{"a":2} x._sync={"r":2}'},
+             script=[{"do": "park", "thread": "A", "point": "wuwx.afterread"}, {"do": "spawn", "thread": "A", "line": 'wuwx c0 k exp=0 n=_sync,usr cb=doc:{"a":2} x._sync={"r":2}'},
+                     {"do": "await", "thread": "A", "point": "wuwx.afterread"}, {"do": "run", "line": 'wtx c0 k exp=0 cas=0 x._sync={"t":1} x.usr={"q":9}'},
                      {"do": "release", "thread": "A"}, {"do": "join", "thread": "A"}],
              observe=["rb c0 k " + N]),
         dict(name="write-in-transaction-vs-read", setup=kv_setup(), threads={"A": 'set c0 k exp=0 raw=0 v={"s":9}'},
